@@ -26,6 +26,13 @@ Theorem C01_next_dart_injective : forall L d1 d2 d',
 Proof. exact nd_injective. Qed.
 Print Assumptions C01_next_dart_injective.
 
+(* ... and onto: every directed edge is the continuation of one; with injectivity, the successor is a
+   permutation of the 2E directed edges *)
+Theorem C01_next_dart_surjective : forall L d,
+  good L -> valid_dart L d -> exists d0, valid_dart L d0 /\ nd L d0 = Some d.
+Proof. exact nd_surjective. Qed.
+Print Assumptions C01_next_dart_surjective.
+
 (* the always-turn-left walk from ANY directed edge closes: the stuck-loop LatticeException, fuel exhaustion and
    index errors are unreachable without self-loops; the walk is a duplicate-free closed orbit of nd starting at
    the requested directed edge *)
